@@ -3,6 +3,7 @@ package props
 import (
 	"fmt"
 	"html/template"
+	"io"
 	"sort"
 	"strings"
 
@@ -293,8 +294,24 @@ func c14Run(c *Ctx, i int, r *gen.R) {
 	first := map[string]string{}
 	firstErr := map[string]bool{}
 	firstBy := map[string]string{}
+	// the reused wrappers also meet destinations that fail: a render that could not write is over when it returns
+	faulty := []struct {
+		name string
+		to   func(w io.Writer) error
+	}{
+		{"reused csv wrapper", csvW.RenderTo}, {"reused html wrapper (cached template)", htmlW.RenderTo}, {"reused html wrapper with generator", htmlG.RenderTo},
+		{"reused json wrapper", jsonW.RenderTo}, {"reused markdown wrapper", mdW.RenderTo}, {"reused text wrapper", textW.RenderTo},
+	}
 	n := r.Range(5, 30)
 	for k := 0; k < n; k++ {
+		if r.Chance(1, 6) {
+			f := faulty[r.Intn(len(faulty))]
+			w := &scriptWriter{k: r.Range(1, 12), mode: r.Intn(c15NModes)}
+			cs.Renders = append(cs.Renders, fmt.Sprintf("%s: RenderTo a writer failing at call %d (%s)", f.name, w.k, c15ModeNames[w.mode]))
+			f.to(w)
+			c.Rec.Count("renders_into_a_failing_writer_through_a_reused_wrapper", 1)
+			continue
+		}
 		x := rds[r.Intn(len(rds))]
 		cs.Renders = append(cs.Renders, x.name)
 		out, err := x.f()
